@@ -325,7 +325,13 @@ pub fn run(ctx: &Ctx, model: &mut Model, rep: &mut Report) {
                 let entries: Vec<String> = sp.iter().map(|p| format!("(e {} {} {})", p.node_rank, p.search_text.len(), m.fuzzy_match(&p.search_text, q).unwrap_or(0).max(0))).collect();
                 let reply = model.call(&format!("(search.sort {} {})", q.is_empty(), entries.join(" ")));
                 let order: Vec<usize> = dump::children(&reply).iter().skip(1).filter_map(|s| s.parse().ok()).collect();
-                let real: Vec<String> = db.global_search(q).iter().map(|s| format!("{}|{}|{:?}", s.key, s.search_text, s.path.ids())).collect();
+                let real: Vec<String> = match dump::catch(|| db.global_search(q)) {
+                    Ok(r) => r.iter().map(|s| format!("{}|{}|{:?}", s.key, s.search_text, s.path.ids())).collect(),
+                    Err(e) => {
+                        rep.fail(json!({"kind": "search_panics", "library": lib, "what": format!("global_search({:?}) panics: {}", q, e.chars().take(200).collect::<String>())}));
+                        break;
+                    }
+                };
                 let model_order: Vec<String> = order.iter().map(|i| format!("{}|{}|{:?}", sp[*i].key, sp[*i].search_text, sp[*i].path.ids())).collect();
                 rep.correspondence_cases += 1;
                 if real != model_order {
